@@ -11,7 +11,7 @@ def run(rep):
     fw.standin(rep, 'difftest.py', ['run', 'F4', rep.seed, 1500 if q else 25000],
                'database histories (compiled code and API): answers and full database contents after every step vs list model',
                'random histories of assertz/asserta/retract(k)/retractall/clear/query over 2 predicates x 2 arities')
-    fw.standin(rep, 's_dbx.py', ['run', rep.seed, 3000 if q else 12000],
+    fw.standin(rep, 's_dbx.py', ['run', rep.seed, 6000 if q else 24000],
                'systematic small-scope database histories: repeated-variable and all-unbound patterns, non-ground facts, retract resumed after other operations',
                'e/2 over {a,b}: 5 databases x 7 patterns x 26 inner operations + random histories')
     rep.notes.append('assert_fact/asserta/assertz: DB[key] := old ++ [fresh copy] (resp. prepend) as a NEW list object, all other keys, '
